@@ -1452,6 +1452,8 @@ func (state *pexState) add(p pex.Peer) {
 		if len(state.pendingDel) == 0 {
 			state.pendingDel = nil
 		}
+		// the deletion was never sent: the peer is still announced
+		state.sent = append(state.sent, p)
 		return
 	}
 
